@@ -12,7 +12,6 @@
 EXTENDS UPSeqSem, Json, IOUtils
 
 Corpus == ndJsonDeserialize(IOEnv.BATCH)
-MaxDepth == Corpus[1].depth
 
 VARIABLES cid, sp, SQ, plan
 vars == <<cid, sp, SQ, plan>>
@@ -31,7 +30,8 @@ Close(c, S) == LET S1 == S \cup QSucc(c, S, Silent) IN S1 \cup QSucc(c, S1, Sile
 Init == /\ cid \in DOMAIN Corpus
         /\ sp = InitSt(RP(cid)) /\ SQ = {InitSt(RQ(cid))} /\ plan = <<>>
 
-Next == /\ Len(plan) < MaxDepth
+Next == /\ Len(plan) < Corpus[cid].depth
+        /\ SmallSt(sp) /\ \A s \in SQ : SmallSt(s)
         /\ InitOK3(RP(cid), InitSt(RP(cid))) = "T"
         /\ \E b \in GActs(Corpus[cid].P) :
              LET rp == Step(RP(cid), b, sp)
